@@ -473,3 +473,204 @@ Print Assumptions c06_cer_encoder.
 Print Assumptions c05_cer_encoder.
 Print Assumptions c05_cer_encoder_setof.
 Print Assumptions c07_cer_encoder.
+
+(* ====================================================================================== *)
+(* Non-vacuity                                                                              *)
+(* ====================================================================================== *)
+
+Definition ok_bytes (r: res bytes) : bytes := match r with Ok b => b | Err _ => [] end.
+
+(* every cut point k < length b: end-of-stream error on the closed prefix, a suspended read on the open one *)
+Definition all_cuts (cd: codec) (fuel: nat) (T: ty) (b: bytes) : bool :=
+  forallb (fun k => match decode_with cd fuel (Some T) (firstn k b) with Err EEndOfStream => true | _ => false end
+                    && match resume (dec_item cd fuel (Some T)) (mkStream (firstn k b) 0 false 0) with
+                       | inl (ReadN _ _, _) => true | _ => false end) (seq 0 (length b)).
+
+(* every chunk boundary: the input in two chunks cut at k, for every k: an underrun on the empty stream, one after
+   the first chunk, then the object at the end position *)
+Definition two_chunks (cd: codec) (fuel: nat) (T: ty) (b: bytes) : list (list (out dval)) :=
+  map (fun k => drive [Arrive (firstn k b); Arrive (skipn k b)] (dec_item cd fuel (Some T)) (mkStream [] 0 false 0))
+      (seq 0 (length b)).
+Definition all_two_chunks (cd: codec) (fuel: nat) (T: ty) (b: bytes) (d: dval) : Prop :=
+  two_chunks cd fuel T b = repeat [OUnder; OUnder; ODone (Ok d) (length b)] (length b).
+
+(* one octet per arrival *)
+Definition bytewise (b: bytes) : list envev := map (fun x => Arrive [x]) b.
+
+(* ---------- (B): indefinite lengths ---------- *)
+
+(* the nested example of RoundTripModes.v: SEQUENCE OF SEQUENCE { INTEGER, [1] EXPLICIT SET OF IA5String,
+   [PRIVATE 40] IMPLICIT SEQUENCE {} }, defMode=False, maxChunkSize=2: 62 octets, indefinite containers three
+   deep, an indefinite EXPLICIT tag, a segmented string closed by 00 00, eleven end-of-octets markers *)
+Definition indef_example_enc : bytes :=
+  [48; 128; 48; 128; 2; 2; 1; 44; 161; 128; 49; 128; 54; 128; 4; 2;
+   97; 98; 4; 2; 99; 100; 4; 1; 101; 0; 0; 22; 0; 0; 0; 0; 0; 255; 40;
+   128; 0; 0; 0; 0; 48; 128; 2; 1; 255; 161; 128; 49; 128; 0; 0; 0; 0;
+   255; 40; 128; 0; 0; 0; 0; 0; 0].
+
+Example indefinite_stream_hyps :
+  stage2_ty modes_ex_nested_ty = true /\ no_f01 modes_ex_nested_ty = true
+  /\ modes_val BER BER modes_ex_nested_ty modes_ex_nested_val = true
+  /\ modes_val BER CER modes_ex_nested_ty modes_ex_nested_val = true
+  /\ encode BER false 2 modes_ex_nested_ty modes_ex_nested_val = Ok indef_example_enc
+  /\ N.of_nat (length indef_example_enc) <= index_max
+  /\ (length indef_example_enc + ty_depth modes_ex_nested_ty <= 80)%nat
+  /\ dec_ok BER /\ dec_ok CER
+  /\ clean_run (dec_item BER 80 (Some modes_ex_nested_ty)) (mkStream indef_example_enc 0 true 0) = true
+  /\ clean_run (dec_item CER 80 (Some modes_ex_nested_ty)) (mkStream indef_example_enc 0 true 0) = true.
+Proof.
+  do 5 (split; [vm_compute; reflexivity|]). split; [vm_compute; discriminate|]. split; [vm_compute; lia|].
+  split; [left; reflexivity|]. split; [right; reflexivity|]. split; vm_compute; reflexivity.
+Qed.
+
+(* C06: each of the 62 cut points, under the BER and the CER decoder *)
+Example c06_indefinite_example :
+  all_cuts BER 80 modes_ex_nested_ty indef_example_enc = true
+  /\ all_cuts CER 80 modes_ex_nested_ty indef_example_enc = true.
+Proof. vm_compute. split; reflexivity. Qed.
+
+(* C05: every single chunk boundary (62 two-chunk schedules), and one octet per arrival with trailing octets *)
+Example c05_indefinite_example :
+  all_two_chunks BER 80 modes_ex_nested_ty indef_example_enc (DV modes_ex_nested_ty modes_ex_nested_val)
+  /\ all_two_chunks CER 80 modes_ex_nested_ty indef_example_enc (DV modes_ex_nested_ty modes_ex_nested_val)
+  /\ wf_sched false (bytewise (indef_example_enc ++ [7; 7]))
+  /\ arrivals (bytewise (indef_example_enc ++ [7; 7])) = indef_example_enc ++ [7; 7]
+  /\ drive (bytewise (indef_example_enc ++ [7; 7])) (dec_item CER 80 (Some modes_ex_nested_ty)) (mkStream [] 0 false 0)
+     = repeat OUnder 62 ++ [ODone (Ok (DV modes_ex_nested_ty modes_ex_nested_val)) 62].
+Proof. vm_compute. repeat split; reflexivity. Qed.
+
+(* C07: three values of SEQUENCE OF [0] EXPLICIT OCTET STRING in indefinite form, segments of one octet, one of
+   them empty, arriving one octet at a time *)
+Definition c07_indef_ty : ty := TSeqOf (TExp (mkTag Ctx false 0) TOcts).
+Definition c07_indef_vals : list val := [VList [VOcts [1; 2]; VOcts []]; VList []; VList [VOcts [9]]].
+Definition c07_indef_encs : list bytes :=
+  [[48; 128; 160; 128; 36; 128; 4; 1; 1; 4; 1; 2; 0; 0; 0; 0; 160; 128; 4; 0; 0; 0; 0; 0];
+   [48; 128; 0; 0];
+   [48; 128; 160; 128; 4; 1; 9; 0; 0; 0; 0]].
+
+Example c07_indefinite_example :
+  let T := c07_indef_ty in let vs := c07_indef_vals in let bs := c07_indef_encs in
+  let sched := bytewise (concat bs) ++ [Close] in
+  stage2_ty T = true /\ no_f01 T = true
+  /\ map (encode BER false 1 T) vs = map Ok bs /\ forallb (modes_val BER BER T) vs = true
+  /\ (length bs <= 30)%nat /\ forallb (fun b => Nat.leb (length b + ty_depth T) 30) bs = true
+  /\ wf_sched false sched /\ has_close sched = true /\ arrivals sched = concat bs
+  /\ drive sched (streaming BER 30 (Some T)) (mkStream [] 0 false 0)
+     = repeat OUnder 40 ++ [ODone (Ok (combine (map (DV T) vs) (ends 0 bs))) (length (concat bs))]
+  /\ ends 0 bs = [24; 28; 39]%nat.
+Proof.
+  cbv zeta. split; [reflexivity|]. split; [reflexivity|]. split; [vm_compute; reflexivity|]. split; [vm_compute; reflexivity|].
+  split; [vm_compute; lia|]. repeat split; vm_compute; reflexivity.
+Qed.
+
+(* ---------- (B): the CER encoder ---------- *)
+
+(* the example of RoundTripModes.v: BOOLEAN TRUE as FF, a 1001-octet OCTET STRING in segments of 1000 under an
+   indefinite EXPLICIT tag, indefinite containers: 1033 octets; every cut point, read by the BER decoder *)
+Definition cer_example_enc : bytes := ok_bytes (encode CER true 0 modes_ex_cer_ty modes_ex_cer_val).
+
+Example c06_cer_example :
+  stage2_ty modes_ex_cer_ty = true /\ no_f01 modes_ex_cer_ty = true /\ modes_val CER BER modes_ex_cer_ty modes_ex_cer_val = true
+  /\ encode CER true 0 modes_ex_cer_ty modes_ex_cer_val = Ok cer_example_enc
+  /\ length cer_example_enc = 1033%nat /\ (length cer_example_enc + ty_depth modes_ex_cer_ty <= 1100)%nat
+  /\ all_cuts BER 1100 modes_ex_cer_ty cer_example_enc = true.
+Proof. vm_compute. repeat split; try reflexivity; lia. Qed.
+
+(* ---------- (A): stage 3 ---------- *)
+
+(* the example of RoundTrip3e.v: [APPLICATION 9] EXPLICIT SEQUENCE { ANY, [0] EXPLICIT ANY OPTIONAL,
+   SET { [1] IMPLICIT [2] EXPLICIT ANY OPTIONAL, BOOLEAN DEFAULT FALSE, CHOICE { INTEGER, [3] EXPLICIT SEQUENCE OF ANY } },
+   SET OF ANY, UTF8String OPTIONAL }: 42 octets under the BER and under the DER encoder *)
+Definition stage3_example_ber : bytes :=
+  [105; 40; 48; 38; 4; 2; 7; 8; 160; 3; 255; 255; 255; 49; 19; 161; 3; 1; 2; 3; 1; 1; 1; 163; 9; 48; 7; 5; 0;
+   160; 3; 2; 1; 5; 49; 6; 2; 1; 9; 1; 1; 0].
+Definition stage3_example_der : bytes :=
+  [105; 40; 48; 38; 4; 2; 7; 8; 160; 3; 255; 255; 255; 49; 19; 1; 1; 255; 161; 3; 1; 2; 3; 163; 9; 48; 7; 5; 0;
+   160; 3; 2; 1; 5; 49; 6; 1; 1; 0; 2; 1; 9].
+
+Example stage3_stream_hyps :
+  stage3_ty false BER stage3_example_ty = true /\ stage3_val BER BER stage3_example_ty stage3_example_val = true
+  /\ encode BER true 0 stage3_example_ty stage3_example_val = Ok stage3_example_ber
+  /\ stage3_ty true DER stage3_example_ty = true /\ stage3_val DER DER stage3_example_ty stage3_example_val = true
+  /\ stage3_val DER CER stage3_example_ty stage3_example_val = true
+  /\ encode DER true 0 stage3_example_ty stage3_example_val = Ok stage3_example_der
+  /\ N.of_nat (length stage3_example_ber) <= index_max /\ N.of_nat (length stage3_example_der) <= index_max
+  /\ (length stage3_example_ber + ty_depth stage3_example_ty <= 60)%nat
+  /\ (length stage3_example_der + ty_depth stage3_example_ty <= 60)%nat
+  /\ clean_run (dec_item BER 60 (Some stage3_example_ty)) (mkStream stage3_example_ber 0 true 0) = true.
+Proof.
+  do 7 (split; [vm_compute; reflexivity|]). do 2 (split; [vm_compute; discriminate|]). do 2 (split; [vm_compute; lia|]).
+  vm_compute. reflexivity.
+Qed.
+
+(* C06: each of the 42 cut points; BER encoding read by the BER decoder, DER encoding by the DER and CER decoders *)
+Example c06_stage3_example :
+  all_cuts BER 60 stage3_example_ty stage3_example_ber = true
+  /\ all_cuts DER 60 stage3_example_ty stage3_example_der = true
+  /\ all_cuts CER 60 stage3_example_ty stage3_example_der = true.
+Proof. vm_compute. repeat split; reflexivity. Qed.
+
+(* C05: every chunk boundary, and one octet per arrival (the decoded value differs from the one written in the
+   representation of an ANY component, VAny for VOcts, and under DER in the order of the SET OF: same contents) *)
+Definition dec_val (r: res (dval * bytes)) : val := match r with Ok (DV _ v', _) => v' | _ => VNull end.
+
+Example c05_stage3_example :
+  let vb := dec_val (decode BER (Some stage3_example_ty) stage3_example_ber) in
+  let vd := dec_val (decode DER (Some stage3_example_ty) stage3_example_der) in
+  abs stage3_example_ty vb = abs stage3_example_ty stage3_example_val
+  /\ all_two_chunks BER 60 stage3_example_ty stage3_example_ber (DV stage3_example_ty vb)
+  /\ aval_eqb (abs stage3_example_ty vd) (abs stage3_example_ty stage3_example_val) = true
+  /\ all_two_chunks DER 60 stage3_example_ty stage3_example_der (DV stage3_example_ty vd)
+  /\ drive (bytewise (stage3_example_ber ++ [0; 0])) (dec_item BER 60 (Some stage3_example_ty)) (mkStream [] 0 false 0)
+     = repeat OUnder 42 ++ [ODone (Ok (DV stage3_example_ty vb)) 42].
+Proof. vm_compute. repeat split; reflexivity. Qed.
+
+(* C07: three values of SEQUENCE { INTEGER OPTIONAL, CHOICE { BOOLEAN, [0] EXPLICIT ANY }, SET OF NULL } *)
+Definition c07_stage3_ty : ty :=
+  TSeq [(Opt, TInt); (Req, TChoice [TBool; TExp (mkTag Ctx false 0) TAny]); (Req, TSetOf TNull)].
+Definition c07_stage3_vals : list val :=
+  [VRec [Some (VInt 5); Some (VChoice 0 (VBool true)); Some (VList [VNull; VNull])];
+   VRec [None; Some (VChoice 1 (VAny [4; 1; 7])); Some (VList [])];
+   VRec [Some (VInt (-129)); Some (VChoice 0 (VBool false)); Some (VList [VNull])]].
+
+Example c07_stage3_example :
+  let T := c07_stage3_ty in let vs := c07_stage3_vals in
+  let bs := map (fun v => ok_bytes (encode BER true 0 T v)) vs in
+  let sched := bytewise (concat bs) ++ [Close] in
+  stage3_ty false BER T = true
+  /\ map (encode BER true 0 T) vs = map Ok bs /\ forallb (stage3_val BER BER T) vs = true
+  /\ (length bs <= 30)%nat /\ forallb (fun b => Nat.leb (length b + ty_depth T) 30) bs = true
+  /\ wf_sched false sched /\ has_close sched = true /\ arrivals sched = concat bs
+  /\ drive sched (streaming BER 30 (Some T)) (mkStream [] 0 false 0)
+     = repeat OUnder (length (concat bs) + 1) ++ [ODone (Ok (combine (map (DV T) vs) (ends 0 bs))) (length (concat bs))]
+  /\ ends 0 bs = [14; 23; 36]%nat.
+Proof.
+  cbv zeta. split; [vm_compute; reflexivity|]. split; [vm_compute; reflexivity|]. split; [vm_compute; reflexivity|].
+  split; [vm_compute; lia|]. repeat split; vm_compute; reflexivity.
+Qed.
+
+(* ---------- the ANY decoders ---------- *)
+
+(* an untagged ANY holding a TLV of indefinite length goes through dec_any_indef, which collects the nested
+   items one by one through the item decoder: no ReadAll, the run is clean (no round-trip theorem covers it:
+   stage3_val wants definite TLVs, and none is needed here) *)
+Example any_indefinite_is_clean :
+  decode_with BER 30 (Some (TSeqOf TAny)) ([48; 128; 48; 128; 2; 1; 5; 0; 0; 36; 128; 4; 1; 7; 0; 0; 0; 0] ++ [9])
+    = Ok (DV (TSeqOf TAny) (VList [VAny [48; 128; 2; 1; 5; 0; 0]; VAny [36; 128; 4; 1; 7; 0; 0]]), [9])
+  /\ clean_run (dec_item BER 30 (Some (TSeqOf TAny)))
+               (mkStream [48; 128; 48; 128; 2; 1; 5; 0; 0; 36; 128; 4; 1; 7; 0; 0; 0; 0; 9] 0 true 0) = true
+  /\ all_cuts BER 30 (TSeqOf TAny) [48; 128; 48; 128; 2; 1; 5; 0; 0; 36; 128; 4; 1; 7; 0; 0; 0; 0] = true.
+Proof. vm_compute. repeat split; reflexivity. Qed.
+
+(* the theorem of StreamClean.v is not vacuous in the other direction either: the unclean run of StreamStage2.v
+   (a constructed OCTET STRING whose fragment is an indefinite-length item under a context tag, collected with
+   ReadAll) succeeds on the bare input but is NOT a consuming run - with one more octet behind it, it fails *)
+Example unclean_run_not_consuming :
+  decode_with BER 20 (Some TOcts) [36; 4; 160; 128; 1; 2] = Ok (DV TOcts (VOcts [1; 2]), [])
+  /\ clean_run (dec_item BER 20 (Some TOcts)) (mkStream [36; 4; 160; 128; 1; 2] 0 true 0) = false
+  /\ ~ consumes (dec_item BER 20 (Some TOcts)) [36; 4; 160; 128; 1; 2] (DV TOcts (VOcts [1; 2])).
+Proof.
+  split; [vm_compute; reflexivity|]. split; [vm_compute; reflexivity|].
+  intros H. destruct (H (mkStream ([36; 4; 160; 128; 1; 2] ++ [3]) 0 true 0) [3] eq_refl) as (s' & Hr & _).
+  vm_compute in Hr. discriminate Hr.
+Qed.
